@@ -330,6 +330,23 @@ def make_opts(rng):
 def hexs(s):
     return '.'.join('%x' % ord(c) for c in s) if s else '-'
 
+def route_scalar(chk, kind, strings):
+    """TextIsScalar: the Lean text type is `List Char`; a string with a lone surrogate cannot cross the line protocol faithfully.
+    Such strings (and a fixed set of them, so that the route is exercised on every run) go to the real check_string directly:
+    no exception may leave it.  Returns the scalar strings for the correspondence."""
+    scalar = [x for x in strings if not SURROGATE_RE.search(x)]
+    odd = [x for x in strings if SURROGATE_RE.search(x)] + ['\ud800', 'a \udc00 b', '%\ud800', '%(\udfff)s', '{\ud800}', '{0:\udc00}', '{a\ud800}', '%1$\ud800d', '%d \ud800 %s']
+    st = chk.coverage.setdefault('non_scalar_strings', {'note': 'strings with a lone surrogate: outside the Lean text type, decided on the real check_string alone', 'by_kind': {}})
+    st['by_kind'][kind] = len(odd)
+    for x in odd:
+        out = P.impl_string(kind, x)
+        chk.evaluations += 1
+        if not out.endswith(' -'):
+            chk.violation('check_string of the %s checker raised on a string with a lone surrogate' % kind,
+                          {'kind': 'crash', 'checker': kind, 'string_codepoints': [hex(ord(c)) for c in x][:80], 'observed': out, 'expected': 'a tag or nothing; no exception'},
+                          key='crash:nonscalar-string:' + kind)
+    return scalar
+
 def model_streams(chk, rng):
     """correspondence of the pipeline model with the real code (scripted collaborators): see pipeline_common.py"""
     big = chk.thorough
@@ -358,15 +375,19 @@ def model_streams(chk, rng):
             n = 20000 if big else 2500
             cs = GC.boundary_strings() + GC.context_strings() + [GC.gen_string(rng) if rng.random() < 0.7 else GC.mutate(rng, GC.gen_string(rng)) for _ in range(n)] + HG.CFMT
             cs = [x for x in cs if x and len(x) < 3000]
+            cs = route_scalar(chk, 'c', cs)
             chk.stream('pipeline-cstring', ['pipeline cstring ' + hexs(x) for x in cs], [P.impl_string('c', x) for x in cs])
             ps = GP.boundary_strings() + GP.context_strings() + [GP.gen_string(rng) if rng.random() < 0.7 else GP.mutate(rng, GP.gen_string(rng)) for _ in range(n)] + HG.PYFMT
             ps = [x for x in ps if x and len(x) < 3000]
+            ps = route_scalar(chk, 'python', ps)
             chk.stream('pipeline-pystring', ['pipeline pystring ' + hexs(x) for x in ps], [P.impl_string('python', x) for x in ps])
             bs = GB.boundary_strings() + GB.fixed_singles() + [GB.gen_string(rng) if rng.random() < 0.6 else GB.mutate(rng, GB.gen_string(rng)) for _ in range(n)] + [GB.gen_clash(rng) for _ in range(n // 10)] + HG.BRACE
             bs = [x for x in bs if x and len(x) < 3000]
+            bs = route_scalar(chk, 'python-brace', bs)
             chk.stream('pipeline-pybstring', ['pipeline pybstring ' + hexs(x) for x in bs], [P.impl_string('python-brace', x) for x in bs])
             qs = [GB.gen_perl(rng) for _ in range(n // 2)] + [GB.mutate(rng, GB.gen_perl(rng)) for _ in range(n // 4)] + HG.PERL
             qs = [x for x in qs if x and len(x) < 3000]
+            qs = route_scalar(chk, 'perl-brace', qs)
             chk.stream('pipeline-perlstring', ['pipeline perlstring ' + hexs(x) for x in qs], [P.impl_string('perl-brace', x) for x in qs])
     except common.Infra:
         raise
@@ -756,7 +777,7 @@ def main():
         chk.violation('proof obligation no longer checks', {'broken': chk.broken}, no_input=True)
     chk.finish(
         level='proof',
-        rule='in-process: corpus/C01 witnesses + table sweeps (every row of data/languages x language sources, characters, iso codes, charsets, header fields, string formats, timezones, control characters, '
+        rule='in-process: corpus/C01 witnesses + codec-exotica sweep (every accepted codec that decodes ASCII bytes to surrogates / NUL / noncharacters / non-ASCII, each probe in 54 slots, PO and MO) + MO cut at every length + table sweeps (every row of data/languages x language sources, characters, iso codes, charsets, header fields, string formats, timezones, control characters, '
              'special domains, read from the loaded tool) + character-class sweeps (every str.isspace character as a line at 11 positions and as separator in 18 slots, every non-ASCII str.isdigit '
              'character in 17 numeric slots) + byte-mutated black-box corpus + slot-grammar files (header fields incl. X-Poedit-* and malformed names, flags, format strings of the four kinds, '
              'plural declarations with boundary numerals / 4300-4301 digits / nesting 3..1500, 130 charset names incl. the tool\'s own, non-ASCII-compatible and non-text codecs, bodies encoded in the '
@@ -770,6 +791,7 @@ def main():
                  'the models of Checker.check, cli.main/check_all/check_file/check_deb and check_string are compared with the REAL functions under scripted collaborators '
                  '(streams pipeline-check, -main, -file, -cstring, -pystring, -pybstring, -perlstring), not proved equal to them',
                  'component theorems used (C02, C04-C07, C09-C20) are tied to the source by their own checks, not re-tied here',
+                 'TextIsScalar: the composed models hold text as List Char (no lone surrogates); loaded files outside that type are counted (coverage.in_process.loaded_text_not_scalar) and decided by the search alone',
                  'pipeline_nocrash_unconditional has no hypothesis about any loader or stage; it assumes, by name, facts about the world outside the checked file: WorldOk (plural registry = the shipped one, '
                  'kernel-checked clean by C07; C20\'s charset fragment total; expat raises only ExpatError; the format checkers get the message\'s own strings), Po.CodecsBehave (a codec the tool classified as '
                  'ASCII-compatible raises only UnicodeError; ISO-8859-1 decodes every byte string) and C09.Latin1OK; worldOk_live derives WorldOk for the generated tables from two third-party contracts',
@@ -783,7 +805,7 @@ def main():
                     'pipeline_nocrash_unconditional (every Pending field discharged: loaders = C09 Mo.parse and C10 Po.load (Lemmas/PoNoCrash: closed outcome set), stages = C17\'s Meta.Real.pipeline with the models of '
                     'C15, C19, C04-C07, C20, C18, C16, C14 over the parsers of C11/C12/C13 (Lemmas/PipelineBrace, PipelineReal): status 0, empty stderr, only tag lines for every list of arguments incl. ARBITRARY '
                     'byte strings as MO/PO/POT, every accepted -l, every -j), real_mo_nocrash, real_po_nocrash, worldOk_live, pipeline_crash_visible, '
-                    'line_is_tag_line (C02), recursion_budget; the trusted data tables as obligations over Generated files regenerated by this check: registry_parses_strictly (C07 shipped_registry_clean), registry_language_nocrash, tags_registered, locale_tables_sane, charset_tables_sane, timezone_table_sane, message_tables_sane. OUTSTANDING: nothing about a stage; the world contracts named under trusted_base; any theorem about time; recursion depth (REFUTED on the real code: open finding '
+                    'line_is_tag_line (C02), recursion_budget; the encode step in front of expat and the TextIsScalar gap (check_fragment_sane, check_fragment_strict_refuted, xml_encode_site_pin, model_text_is_scalar, strict_encode_never_fails_on_model_text); the trusted data tables as obligations over Generated files regenerated by this check: registry_parses_strictly (C07 shipped_registry_clean), registry_language_nocrash, tags_registered, locale_tables_sane, charset_tables_sane, timezone_table_sane, message_tables_sane. OUTSTANDING: nothing about a stage; the world contracts named under trusted_base; any theorem about time; recursion depth (REFUTED on the real code: open finding '
                     'crash:RecursionError:lib/intexpr.py, plural expressions nested deeper than ~490, replayed from corpus/C01 on every run). '
                     'TEST (this run): %d in-process files, %d command-line runs, %d size-doubling families, %d regexes screened (%d repeats pumped), %d slot-sweep files. '
                     'FIXED by this check\'s findings in /repo: 4ff67ee, d16b49e, 875595a (+ recorded 2f85d76, 9de4551).'
